@@ -217,6 +217,8 @@ class C03(Prop):
         with ctx.Pool(int(harness.os.environ.get("VERIF_WORKERS", "16"))) as pool:
             for sub in pool.imap_unordered(_enum_job, jobs, chunksize=2):
                 acc.merge(sub)
+        if tier == "thorough":
+            harness.fuzz_stage(self, acc, "pbt.fuzz.c03_fuzz", seed, 60000, jobs=8, max_len=300)
         acc.extra["enumeration"] = {"keywords": len(jobs), "value_pool": len(VALUE_POOL),
                                     "instance_pool": len(INSTANCE_POOL),
                                     "exhaustive_over": "every {k: v} and consulted-sibling pair {k: v, k2: v2} for "
